@@ -292,12 +292,40 @@ func compareTable(c *fw.Ctx, rule, what string, fn *ssa.Function, resIdx int, va
 		if want == "" {
 			return
 		}
-		rows, unk := t.Eval(ip.env(a))
-		for _, u := range unk {
-			unknown[u] = true
-		}
-		if len(unk) > 0 {
-			return
+		rows, maybe, unk := t.Eval3(ip.env(a))
+		if len(rows) == 0 && len(maybe) > 0 {
+			// no path is established; the candidates are the paths that depend on conditions the
+			// rule does not know. If they all decide what the rules decide, those conditions do
+			// not matter; if none does, every feasible path disagrees; otherwise not decided.
+			agree, disagree := 0, 0
+			for _, r := range maybe {
+				if rowValue(r) == want {
+					agree++
+				} else if oracleOutcomes[rowValue(r)] {
+					disagree++
+				}
+			}
+			switch {
+			case disagree == 0 && agree == len(maybe):
+				for _, r := range maybe {
+					rowsUsed[r.Ret] = true
+				}
+				return
+			case agree == 0 && disagree == len(maybe):
+				rows = maybe
+			default:
+				for _, u := range unk {
+					unknown[u] = true
+				}
+				return
+			}
+		} else if len(rows) == 0 {
+			for _, u := range unk {
+				unknown[u] = true
+			}
+			if len(unk) > 0 {
+				return
+			}
 		}
 		outs := map[string]bool{}
 		var pos []string
@@ -332,14 +360,11 @@ func compareTable(c *fw.Ctx, rule, what string, fn *ssa.Function, resIdx int, va
 	for u := range unknown {
 		c.Undecided(rule, what+": unrecognised branch condition", "the function branches on a condition the rule does not know: "+u)
 	}
-	if len(unknown) > 0 {
-		return
-	}
 	for u := range notUnderstood {
 		c.Undecided(rule, what+": outcome not understood", u)
 		break
 	}
-	if len(mismatches) == 0 && len(notUnderstood) > 0 {
+	if len(mismatches) == 0 && (len(notUnderstood) > 0 || len(unknown) > 0) {
 		return
 	}
 	if len(mismatches) == 0 {
